@@ -40,6 +40,15 @@ type Engine struct {
 	inlinedUsed  map[string]bool
 	funcConsts   map[string]string
 	abort        bool
+	known        []KnownFinding
+}
+
+type KnownFinding struct {
+	Property   string `json:"property"`
+	Function   string `json:"function"`
+	Obligation string `json:"obligation"`
+	Region     string `json:"region"`
+	What       string `json:"what"`
 }
 
 type Obligation struct {
@@ -58,6 +67,7 @@ type Obligation struct {
 	Model  string   `json:"model,omitempty"`
 	Query  string   `json:"-"`
 	Probes []Probe  `json:"-"`
+	Prefer []string `json:"-"`
 	Status string   `json:"status"` // discharged, failed, unknown, vacuous, ok(for expect=sat)
 }
 
